@@ -104,3 +104,326 @@ pub fn toggle(prog: &J, ptr: &str, neg: bool, on: bool) -> J {
     }
     p
 }
+
+// ------------------------------------------------------------------ C04: order / repetition
+
+use crate::rng::Rng;
+
+/// JSON pointers of every CNF (sequence of lines) in the program
+pub fn cnf_pointers(prog: &J) -> Vec<String> {
+    let mut out = Vec::new();
+    if let Some(rules) = prog["rules"].as_array() {
+        for (i, r) in rules.iter().enumerate() {
+            if r["w"].as_array().map(|a| !a.is_empty()).unwrap_or(false) {
+                out.push(format!("/rules/{}/w", i));
+            }
+            out.push(format!("/rules/{}/b", i));
+        }
+    }
+    for cp in clause_pointers(prog) {
+        let c = prog.pointer(&cp).unwrap();
+        match c["c"].as_str().unwrap_or("") {
+            "block" => out.push(format!("{}/b", cp)),
+            "when" | "type" => {
+                if c["w"].as_array().map(|a| !a.is_empty()).unwrap_or(false) {
+                    out.push(format!("{}/w", cp));
+                }
+                out.push(format!("{}/b", cp));
+            }
+            "gac" => {
+                if let Some(q) = c["q"].as_array() {
+                    for (j, part) in q.iter().enumerate() {
+                        if part["p"] == "filter" {
+                            out.push(format!("{}/q/{}/c", cp, j));
+                        }
+                    }
+                }
+            }
+            _ => {}
+        }
+    }
+    out.sort();
+    out.dedup();
+    out
+}
+
+fn permute(v: &mut Vec<J>, r: &mut Rng) -> bool {
+    if v.len() < 2 {
+        return false;
+    }
+    let before = v.clone();
+    for _ in 0..4 {
+        r.shuffle(v);
+        if *v != before {
+            return true;
+        }
+    }
+    // all elements equal or unlucky: rotate
+    v.rotate_left(1);
+    *v != before
+}
+
+/// one order/repetition variant of `prog`: (kind, program) or None if not applicable
+pub fn perm_variant(prog: &J, kind: &str, r: &mut Rng) -> Option<J> {
+    let mut p = prog.clone();
+    match kind {
+        "PL" => {
+            // permute the lines (conjuncts) of one CNF that has at least two lines
+            let cands: Vec<String> = cnf_pointers(&p)
+                .into_iter()
+                .filter(|cp| p.pointer(cp).and_then(|c| c.as_array()).map(|a| a.len() >= 2).unwrap_or(false))
+                .collect();
+            if cands.is_empty() {
+                return None;
+            }
+            let cp = cands[r.below(cands.len())].clone();
+            let a = p.pointer_mut(&cp)?.as_array_mut()?;
+            if !permute(a, r) {
+                return None;
+            }
+        }
+        "PA" => {
+            // permute the alternatives of one line that has at least two
+            let mut cands = Vec::new();
+            for cp in cnf_pointers(&p) {
+                if let Some(lines) = p.pointer(&cp).and_then(|c| c.as_array()) {
+                    for (li, l) in lines.iter().enumerate() {
+                        if l.as_array().map(|a| a.len() >= 2).unwrap_or(false) {
+                            cands.push(format!("{}/{}", cp, li));
+                        }
+                    }
+                }
+            }
+            if cands.is_empty() {
+                return None;
+            }
+            let lp = cands[r.below(cands.len())].clone();
+            let a = p.pointer_mut(&lp)?.as_array_mut()?;
+            if !permute(a, r) {
+                return None;
+            }
+        }
+        "DC" => {
+            // repeat a clause: duplicate one line of one CNF, or one alternative of a line
+            let cands = cnf_pointers(&p);
+            if cands.is_empty() {
+                return None;
+            }
+            let cp = cands[r.below(cands.len())].clone();
+            let a = p.pointer_mut(&cp)?.as_array_mut()?;
+            if a.is_empty() {
+                return None;
+            }
+            let i = r.below(a.len());
+            if r.chance(1, 2) {
+                let line = a[i].clone();
+                let at = r.below(a.len() + 1);
+                a.insert(at, line);
+            } else {
+                let alts = a[i].as_array_mut()?;
+                let j = r.below(alts.len());
+                let c = alts[j].clone();
+                let at = r.below(alts.len() + 1);
+                alts.insert(at, c);
+            }
+        }
+        "PR" => {
+            let a = p["rules"].as_array_mut()?;
+            if !permute(a, r) {
+                return None;
+            }
+        }
+        "DR" => {
+            // duplicate a rule under a new name (at a random position)
+            let a = p["rules"].as_array_mut()?;
+            let i = r.below(a.len());
+            let mut d = a[i].clone();
+            d["n"] = json!(format!("{}dup", d["n"].as_str().unwrap()));
+            let at = r.below(a.len() + 1);
+            a.insert(at, d);
+        }
+        _ => return None,
+    }
+    Some(p)
+}
+
+// ------------------------------------------------------------------ C15: abstraction
+
+/// is the CNF at `cnf_ptr` evaluated with the document root as its context, and which rule
+/// (index) does it belong to?  Only clauses directly in a rule body or in (nested) when blocks
+/// of a rule body qualify: blocks, filters and type blocks change the context.
+fn root_context_clause_pointers(prog: &J) -> Vec<(usize, String)> {
+    fn walk(cnf: &J, p: &str, ri: usize, out: &mut Vec<(usize, String)>) {
+        if let Some(lines) = cnf.as_array() {
+            for (li, line) in lines.iter().enumerate() {
+                for (ai, c) in line.as_array().unwrap().iter().enumerate() {
+                    let cp = format!("{}/{}/{}", p, li, ai);
+                    if c["c"] == "gac" {
+                        out.push((ri, cp.clone()));
+                    }
+                    if c["c"] == "when" {
+                        walk(&c["w"], &format!("{}/w", cp), ri, out);
+                        walk(&c["b"], &format!("{}/b", cp), ri, out);
+                    }
+                }
+            }
+        }
+    }
+    let mut out = Vec::new();
+    if let Some(rules) = prog["rules"].as_array() {
+        for (i, r) in rules.iter().enumerate() {
+            walk(&r["w"], &format!("/rules/{}/w", i), i, &mut out);
+            walk(&r["b"], &format!("/rules/{}/b", i), i, &mut out);
+        }
+    }
+    out
+}
+
+fn uses_var(j: &J, name: &str) -> bool {
+    match j {
+        J::Object(m) => {
+            if m.get("p").map(|p| p == "var" || p == "vkey").unwrap_or(false) && m.get("n").map(|n| n == name).unwrap_or(false) {
+                return true;
+            }
+            m.values().any(|v| uses_var(v, name))
+        }
+        J::Array(a) => a.iter().any(|v| uses_var(v, name)),
+        _ => false,
+    }
+}
+
+fn query_is_plain(q: &J) -> bool {
+    // no variable head / interpolation (their meaning depends on the scope they are in)
+    q.as_array().map(|a| a.iter().all(|p| p["p"] != "var" && p["p"] != "vkey")).unwrap_or(false)
+}
+
+/// one abstraction variant of `prog` (C15)
+pub fn abs_variant(prog: &J, kind: &str, r: &mut Rng) -> Option<J> {
+    let mut p = prog.clone();
+    let fresh = "zv";
+    if uses_var(&p, fresh) {
+        return None;
+    }
+    match kind {
+        // bind the literal right-hand side of a clause to a variable (file or rule scope)
+        "AL" | "AQ" | "AR" => {
+            let cands: Vec<(usize, String)> = root_context_clause_pointers(&p)
+                .into_iter()
+                .filter(|(_, cp)| {
+                    let c = p.pointer(cp).unwrap();
+                    match kind {
+                        "AL" => c["rhs"].as_array().and_then(|a| a.first()).map(|x| x["r"] == "val").unwrap_or(false),
+                        "AR" => c["rhs"].as_array().and_then(|a| a.first()).map(|x| x["r"] == "q" && query_is_plain(&x["q"])).unwrap_or(false),
+                        _ => {
+                            // the documented exception: emptiness test on a bare variable
+                            query_is_plain(&c["q"]) && !(c["op"] == "empty")
+                        }
+                    }
+                })
+                .collect();
+            if cands.is_empty() {
+                return None;
+            }
+            let (ri, cp) = cands[r.below(cands.len())].clone();
+            let at_file = r.chance(1, 2);
+            let def;
+            {
+                let c = p.pointer_mut(&cp)?;
+                match kind {
+                    "AL" | "AR" => {
+                        def = c["rhs"][0].clone();
+                        c["rhs"] = json!([{"r":"q","q":[{"p":"var","n":fresh}],"all":true}]);
+                    }
+                    _ => {
+                        // abstract a prefix of the left-hand query (never cutting before a filter's
+                        // own context): let zv = <prefix> ; %zv<rest>
+                        let q = c["q"].as_array()?.clone();
+                        let cut = 1 + r.below(q.len());
+                        let prefix: Vec<J> = q[..cut].to_vec();
+                        let rest: Vec<J> = q[cut..].to_vec();
+                        if prefix.iter().any(|x| x["p"] == "filter" || x["p"] == "keys") && !rest.is_empty() {
+                            // continuing below a filtered prefix through a variable is still the same query
+                        }
+                        if let Some(first) = rest.first() {
+                            // `%v[*]`: the index directly after a variable is swallowed by the parser's
+                            // implicit [*]; `%v[ filter ]` on a map is not the same query position
+                            if first["p"] == "idx" || first["p"] == "filter" || first["p"] == "keys" {
+                                return None;
+                            }
+                        }
+                        def = json!({"r":"q","q":prefix,"all":true});
+                        let mut nq = vec![json!({"p":"var","n":fresh})];
+                        nq.extend(rest);
+                        c["q"] = J::Array(nq);
+                    }
+                }
+            }
+            let l = json!({"n":fresh,"v":def});
+            if at_file {
+                p["lets"].as_array_mut()?.push(l);
+            } else {
+                p["rules"][ri]["lets"].as_array_mut()?.push(l);
+            }
+        }
+        // an unused variable (whose evaluation would even be an error) never matters
+        "UN" => {
+            let l = match r.below(3) {
+                0 => json!({"n":fresh,"v":{"r":"val","v":{"t":"int","v":7}}}),
+                1 => json!({"n":fresh,"v":{"r":"q","q":[{"p":"key","k":[122,122]},{"p":"idx"}],"all":true}}),
+                _ => json!({"n":fresh,"v":{"r":"q","q":[{"p":"var","n":"undefined_var"}],"all":true}}),
+            };
+            if r.chance(1, 2) {
+                p["lets"].as_array_mut()?.push(l);
+            } else {
+                let n = p["rules"].as_array()?.len();
+                p["rules"][r.below(n)]["lets"].as_array_mut()?.push(l);
+            }
+        }
+        // shadowing: an outer definition of a name that a rule defines itself is never seen there
+        "SH" => {
+            let rules = p["rules"].as_array()?;
+            let mut cands = Vec::new();
+            for r0 in rules {
+                for l in r0["lets"].as_array()? {
+                    cands.push(l["n"].as_str()?.to_string());
+                }
+            }
+            cands.retain(|n| !p["lets"].as_array().unwrap().iter().any(|l| l["n"] == n.as_str()));
+            // the outer definition must not be visible to any other rule
+            cands.retain(|n| {
+                rules.iter().all(|r0| {
+                    let defines = r0["lets"].as_array().unwrap().iter().any(|l| l["n"] == n.as_str());
+                    defines || !uses_var(r0, n)
+                })
+            });
+            if cands.is_empty() {
+                return None;
+            }
+            let n = cands[r.below(cands.len())].clone();
+            p["lets"].as_array_mut()?.push(json!({"n":n,"v":{"r":"val","v":{"t":"str","v":[111,117,116,101,114]}}}));
+        }
+        // a clause turned into a call of a parameterised rule whose body is that clause
+        "IN" => {
+            let cands: Vec<(usize, String)> = root_context_clause_pointers(&p)
+                .into_iter()
+                .filter(|(_, cp)| {
+                    let c = p.pointer(cp).unwrap();
+                    // only rule-body positions (a call is not allowed in every when-condition form)
+                    query_is_plain(&c["q"]) && !(c["op"] == "empty") && !cp.contains("/w/")
+                })
+                .collect();
+            if cands.is_empty() {
+                return None;
+            }
+            let (_ri, cp) = cands[r.below(cands.len())].clone();
+            let c = p.pointer(&cp)?.clone();
+            let mut body = c.clone();
+            body["q"] = json!([{"p":"var","n":"zp"}]);
+            let arg = json!({"r":"q","q":c["q"],"all":true});
+            *p.pointer_mut(&cp)? = json!({"c":"pcall","n":"zf","a":[arg],"neg":false});
+            p["prules"].as_array_mut()?.push(json!({"n":"zf","ps":["zp"],"lets":[],"b":[[body]]}));
+        }
+        _ => return None,
+    }
+    Some(p)
+}
